@@ -271,6 +271,8 @@ pub struct Sh {
     idx: HashMap<String, usize>,
     atoms: Vec<US<AtomicUsize>>,
     cells: Vec<SArc<US<loom::cell::UnsafeCell<usize>>>>,
+    /// `loom::cell::Cell`s, for the cell names used through the Cell API (rd/wr with k = cell | replace | take)
+    ccells: Vec<Option<US<loom::cell::Cell<usize>>>>,
     mtxs: Vec<US<Option<loom::sync::Mutex<usize>>>>,
     rws: Vec<US<Option<loom::sync::RwLock<usize>>>>,
     cvs: Vec<loom::sync::Condvar>,
@@ -339,6 +341,10 @@ impl Sh {
             .iter()
             .map(|_| SArc::new(US::new(loom::cell::UnsafeCell::new(0usize))))
             .collect();
+        let cell_api = |n: &String| {
+            prog.threads.iter().flatten().any(|i| (i.op == "rd" || i.op == "wr") && &i.o == n && matches!(i.k.as_str(), "cell" | "replace" | "take"))
+        };
+        let ccells = prog.cells.iter().map(|n| if cell_api(n) { Some(US::new(loom::cell::Cell::new(0usize))) } else { None }).collect();
         let mtxs = prog.mtxs.iter().map(|_| US::new(Some(loom::sync::Mutex::new(0usize)))).collect();
         let rws = prog.rws.iter().map(|_| US::new(Some(loom::sync::RwLock::new(0usize)))).collect();
         let cvs = prog.cvs.iter().map(|_| loom::sync::Condvar::new()).collect();
@@ -388,6 +394,7 @@ impl Sh {
             idx,
             atoms,
             cells,
+            ccells,
             mtxs,
             rws,
             cvs,
@@ -525,6 +532,7 @@ fn run_thread(sh: SArc<Sh>, t: usize) {
     let mut wptr: HashMap<String, loom::cell::MutPtr<usize>> = HashMap::new();
     let armed = std::rc::Rc::new(std::cell::Cell::new(false));
     let mut aguards: Vec<AGuard> = Vec::new();
+    let mut held_rx: HashMap<usize, loom::sync::mpsc::Receiver<usize>> = HashMap::new();
     let mut pc = 0usize;
     while pc < code.len() {
         let ins = &code[pc];
@@ -579,7 +587,18 @@ fn run_thread(sh: SArc<Sh>, t: usize) {
                 sh.atoms[oi()].get().with_mut(|_| panic!("verif-panic"))
             }
             "wmut" => sh.atoms[oi()].get().with_mut(|p| *p = ins.v as usize),
+            // k = "always": the guard touches its atomic in Drop on every path, an unwinding one included
+            "aguard" if ins.k == "always" => aguards.push(AGuard { sh: sh.clone(), i: oi(), armed: std::rc::Rc::new(std::cell::Cell::new(true)) }),
             "aguard" => aguards.push(AGuard { sh: sh.clone(), i: oi(), armed: armed.clone() }),
+            // the Receiver lives in this thread's frame between rxhold and rxrel (a value with a loom-aware Drop on the stack)
+            "rxhold" => {
+                let r = sh.rxs[oi()].get().take().expect("harness: rxhold without receiver");
+                held_rx.insert(oi(), r);
+            }
+            "rxrel" => {
+                let r = held_rx.remove(&oi()).expect("harness: rxrel of a receiver not held");
+                *sh.rxs[oi()].get() = Some(r);
+            }
             "uld" => res = Some(unsafe { sh.atoms[oi()].get().unsync_load() } as i64),
             "rd" if ins.k == "panic" => {
                 armed.set(true);
@@ -598,6 +617,16 @@ fn run_thread(sh: SArc<Sh>, t: usize) {
             "wr" if ins.k == "parkin" => {
                 sh.cells[oi()].get().with_mut(|_| loom::thread::park());
                 next = pc + 2;
+            }
+            "rd" if ins.k == "cell" => {
+                let _ = sh.ccells[oi()].as_ref().expect("harness: no Cell").get().get();
+            }
+            "wr" if ins.k == "cell" => sh.ccells[oi()].as_ref().expect("harness: no Cell").get().set(ins.v as usize),
+            "wr" if ins.k == "replace" => {
+                let _ = sh.ccells[oi()].as_ref().expect("harness: no Cell").get().replace(ins.v as usize);
+            }
+            "wr" if ins.k == "take" => {
+                let _ = sh.ccells[oi()].as_ref().expect("harness: no Cell").get().take();
             }
             "rd" => sh.cells[oi()].get().with(|_| ()),
             "wr" => sh.cells[oi()].get().with_mut(|_| ()),
@@ -920,6 +949,9 @@ fn run_thread(sh: SArc<Sh>, t: usize) {
     drop(rptr);
     drop(wptr);
     drop(aguards);
+    for (i, r) in held_rx.drain() {
+        *sh.rxs[i].get() = Some(r);
+    }
     drop(wg);
     drop(rg);
     drop(mg);
